@@ -28,7 +28,7 @@ RULE = (
     "A run is either a history (one client executes a seeded sequence of 5..40 calls drawn with repetition from "
     "the call pool in one interpreter) or a schedule (2..16 real threads, 1..6 calls each on distinct SimDisk "
     "paths, interleaved by the seeded baton scheduler at iodata line granularity and at seam calls; policies: "
-    "random switching with p in {0.2%,1%,5%}, the same plus pre-emption with p_new in {2%,10%,30%} at lines executed for the first time in the run, PCT with d in {1,2,3}). Every call's outcome record (object digest "
+    "random switching with p in {0.2%,1%,5%}, the same plus pre-emption with p_new in {2%,10%,30%} at lines executed for the first time in the run, pre-emption right after a line that rebinds a module-level name (STORE_GLOBAL), PCT with d in {1,2,3}). Every call's outcome record (object digest "
     "/ bytes / exception type+message) must equal the record of the same call alone in a pristine fork; module "
     "table digests must stay pristine. Non-trivial = history of >= 2 calls, or a schedule in which at least one "
     "context switch landed inside an API call; distinct = hash of (call sequence) resp. (clients, switch list)."
@@ -46,6 +46,7 @@ COMPONENTS = {
 
 POOL = None
 REFS = None
+STATEFUL = {}  # call id -> sites: calls that were seen to write process-global state when run alone
 _GUARD = None
 SMALL = 40_000
 
@@ -107,6 +108,23 @@ def build_pool():
     for fname, text in (("unk.mol2", unk_mol2), ("unk.xyz", unk_xyz), ("unk.pdb", unk_pdb), ("unk.sdf", unk_sdf)):
         pool.append({"op": "load_one", "file": fname, "fmt": None, "inline": text})
     pool.append({"op": "load_many", "file": "unk.mol2", "fmt": None, "inline": unk_mol2})
+    # extended XYZ: species-only, Z+species, and Properties strings the parser rejects half-way
+    def exyz(props, cols):
+        return f"2\nProperties={props} pbc=\"F F F\"\n" + "".join(f"{c}\n" for c in cols)
+    ext_ok = exyz("species:S:1:pos:R:3", ["H 0.0 0.0 0.0", "F 0.0 0.0 0.9"])
+    ext_both = exyz("species:S:1:pos:R:3:Z:I:1", ["H 0.0 0.0 0.0 1", "F 0.0 0.0 0.9 9"])
+    ext_bad_dtype = exyz("species:S:1:pos:R:3:foo:Q:1", ["H 0.0 0.0 0.0 1", "F 0.0 0.0 0.9 2"])
+    ext_bad_shape = exyz("species:S:1:pos:R:3:foo:R:x", ["H 0.0 0.0 0.0 1", "F 0.0 0.0 0.9 2"])
+    for fname, text in (("ok.extxyz", ext_ok), ("both.extxyz", ext_both), ("bad_dtype.extxyz", ext_bad_dtype), ("bad_shape.extxyz", ext_bad_shape)):
+        pool.append({"op": "load_one", "file": fname, "fmt": None, "inline": text})
+        pool.append({"op": "load_many", "file": fname, "fmt": None, "inline": text})
+    pool.append({"op": "load_one", "file": "al_fcc.xyz", "fmt": "extxyz"})
+    # a Gaussian input whose arrays contradict each other (rejected by the IOData validators)
+    pool.append({"op": "load_one", "file": "blank.com", "fmt": None, "inline": "#p hf/sto-3g\n\nblank\n\n0 1\n\nH 0.0 0.0 1.0\n\n"})
+    # shells of high angular momentum (formats whose convention tables end earlier)
+    high_l = {"kind": "corpus", "file": "he_spdfgh_orbital.wfn", "mods": []}
+    for fmt, out in (("molden", "o.molden"), ("molekel", "o.mkl"), ("fchk", "o.fchk"), ("wfx", "o.wfx"), ("wfn", "o.wfn")):
+        pool.append({"op": "dump_one", "fmt": fmt, "out": out, "obj": high_l, "allow_changes": True})
     # dumps
     for fmt in sorted(c08.ONE):
         fname, recipes = c08.ONE[fmt]
@@ -212,10 +230,15 @@ def _child_reference(call, wfd):
     try:
         warnings.simplefilter("ignore")
         prep = prepare_call(call)
+        sched.MONITOR.install(common.REPO)
+        guard = canon.TableGuard()  # after the arguments were prepared: only the call itself is observed
+        probe = sched.GlobalStoreProbe()
         disk = seams.SimDisk(log_events=False)
-        with seams.Installed(disk):
+        with seams.Installed(disk), sched.Steps(sched=probe):
             rec = exec_call(call, prep, disk, "")
-        payload = pickle.dumps(("ok", rec))
+        # does this call write process-global state of any kind (tables, memo caches, rebound names)?
+        stateful = bool(probe.hits) or bool(guard.changed()) or bool(canon.clear_function_caches())
+        payload = pickle.dumps(("ok", (rec, stateful, sorted(probe.sites))))
     except BaseException as exc:  # noqa: BLE001
         payload = pickle.dumps(("harness", f"{type(exc).__name__}: {exc}"))
     with os.fdopen(wfd, "wb") as fh:
@@ -254,7 +277,9 @@ def compute_refs(pool, maxpar=16):
             kind, rec = pickle.loads(buf)
             if kind != "ok":
                 raise RuntimeError(f"HARNESS: reference for call {call['id']} failed: {rec}")
-            refs[call["id"]] = rec
+            refs[call["id"]] = rec[0]
+            if rec[1]:
+                STATEFUL[call["id"]] = rec[2]
     return refs
 
 
@@ -479,7 +504,21 @@ def plan(tier, seed, args):
         raise RuntimeError(f"HARNESS: fork-of-pristine reference differs from a fresh interpreter for calls {bad[:2]}")
     FRESH_CHECKED = len(ids)
     n = args.runs or (700 if tier == "quick" else 12000)
-    return [{"run": i, "seed": seed, "tier": tier} for i in range(n)]
+    tasks = [{"run": i, "seed": seed, "tier": tier} for i in range(n)]
+    # Adaptive targeting: calls that write process-global state when run alone (none on a tree where the property
+    # holds trivially) are interleaved pairwise, pre-empting right after every global store.
+    ids = sorted(STATEFUL)
+    pairs = [(a, b) for a in ids for b in ids]
+    prng = common.rng_for(seed, ID, "pairs")
+    cap = 240 if tier == "quick" else 4000
+    if len(pairs) > cap:
+        pairs = prng.sample(pairs, cap)
+    run = n
+    for a, b in pairs:
+        for pol in (["gstore", 0.002, 1.0], ["newline", 0.002, 0.3]):
+            tasks.append({"run": run, "seed": seed, "tier": tier, "pair": [a, b], "policy": pol})
+            run += 1
+    return tasks
 
 
 def gen_trace(rng):
@@ -487,12 +526,19 @@ def gen_trace(rng):
         n = rng.randint(5, 40)
         return {"mode": "history", "calls": [copy.deepcopy(rng.choice(POOL)) for _ in range(n)]}
     nthreads = rng.choice([2, 2, 3, 3, 4, 6, 8, 16])
-    clients = [[copy.deepcopy(rng.choice(POOL)) for _ in range(rng.randint(1, 6 if nthreads <= 6 else 2))] for _ in range(nthreads)]
+    # swarm: most runs draw all clients' calls from a small random subset of the pool, so that concurrent
+    # threads are likely to be inside the same code paths (where races on shared state live)
+    sub = POOL
+    if rng.random() < 0.65:
+        sub = rng.sample(POOL, rng.choice([2, 3, 4, 6]))
+    clients = [[copy.deepcopy(rng.choice(sub)) for _ in range(rng.randint(1, 6 if nthreads <= 6 else 2))] for _ in range(nthreads)]
     r = rng.random()
-    if r < 0.4:
+    if r < 0.3:
         policy = ["random", rng.choice([0.002, 0.01, 0.05])]
-    elif r < 0.75:
+    elif r < 0.6:
         policy = ["newline", rng.choice([0.002, 0.01]), rng.choice([0.02, 0.1, 0.3])]
+    elif r < 0.8:
+        policy = ["gstore", rng.choice([0.002, 0.01]), rng.choice([0.3, 0.6, 1.0])]
     else:
         policy = ["pct", rng.choice([1, 2, 3])]
     return {"mode": "threads", "clients": clients, "policy": policy, "schedule": None, "horizon": 4000 * nthreads}
@@ -501,7 +547,14 @@ def gen_trace(rng):
 def run_task(task):
     rng = common.rng_for(task["seed"], ID, task["run"])
     stats = Stats()
-    trace = gen_trace(rng)
+    if "pair" in task:
+        a, b = task["pair"]
+        extra = [[copy.deepcopy(POOL[rng.choice(task["pair"])])]] if rng.random() < 0.3 else []
+        trace = {"mode": "threads", "clients": [[copy.deepcopy(POOL[a])], [copy.deepcopy(POOL[b])]] + extra,
+                 "policy": task["policy"], "schedule": None, "horizon": 8000}
+        stats.inc("probe.targeted_stateful_pair_runs")
+    else:
+        trace = gen_trace(rng)
     if trace["mode"] == "history":
         viols, recs, steps = run_history(trace, REFS, stats)
         stats.inc("outcome.history_runs")
@@ -555,6 +608,7 @@ def shrink(trace, still_fails):
 def coverage_extra(stats, tier):
     return {
         "pool_size": len(POOL) if POOL else None,
+        "calls_writing_global_state_when_run_alone": len(STATEFUL),
         "references_crosschecked_in_fresh_interpreters": FRESH_CHECKED,
         "distinct_interleavings": stats.distinct("schedules"),
         "distinct_call_pairs_in_histories": stats.distinct("call_pairs"),
